@@ -86,7 +86,7 @@ def typ_kind(t):
     if t.startswith("List["):
         return "list"
     if t.startswith("Literal["):
-        return "literal"
+        return "literal" if "," in t else "literal1"  # an enumeration of ONE member takes other paths (no Tuple slice) in every emitter
     if re.fullmatch(r"[A-Za-z_][\w.]*", t):
         return "dotted"
     return "other"
